@@ -38,7 +38,7 @@ import mutscan  # noqa: E402
 
 VERIF = mutscan.VERIF
 REPO = mutscan.REPO
-KINDS = ("rename", "cmpflip", "ifinvert", "ternary", "commute", "augexpand", "temp", "hoist", "kwarg")
+KINDS = ("rename", "crename", "cmpflip", "ifinvert", "ternary", "commute", "augexpand", "temp", "hoist", "kwarg")
 FLIP = {ast.Eq: "==", ast.NotEq: "!=", ast.Lt: ">", ast.LtE: ">=", ast.Gt: "<", ast.GtE: "<="}
 AUG = {ast.Add: "+", ast.Sub: "-", ast.Mult: "*"}
 
@@ -85,7 +85,7 @@ def rewrites(rel, src, per_function, kinds):
         inner_nodes = {id(y) for x in nested if isinstance(x, ast.FunctionDef) for y in ast.walk(x)}
         base = {"file": rel, "function": fn.name, "line": fn.lineno, "end": fn.end_lineno}
         per_kind = {k: [] for k in KINDS}
-        if "rename" in kinds:
+        if "rename" in kinds or "crename" in kinds:
             scope_nodes = {id(y) for x in nested for y in ast.walk(x)}
             params = {a.arg for a in fn.args.posonlyargs + fn.args.args + fn.args.kwonlyargs} | ({fn.args.vararg.arg} if fn.args.vararg else set()) | ({fn.args.kwarg.arg} if fn.args.kwarg else set())
             declared = {n for s in ast.walk(fn) if isinstance(s, (ast.Global, ast.Nonlocal)) for n in s.names}
@@ -94,10 +94,22 @@ def rewrites(rel, src, per_function, kinds):
                 if isinstance(n, ast.Name) and isinstance(n.ctx, ast.Store) and id(n) not in scope_nodes and n.id not in params and n.id not in declared and n.id not in stored:
                     stored.append(n.id)
             inner_used = {y.id for x in nested for y in ast.walk(x) if isinstance(y, ast.Name)}
-            for v in [v for v in stored if v not in inner_used and v + "_r" not in all_names and not v.startswith("_")]:
+            for v in [v for v in stored if "rename" in kinds and v not in inner_used and v + "_r" not in all_names and not v.startswith("_")]:
                 sites = [n for n in ast.walk(fn) if isinstance(n, ast.Name) and n.id == v and id(n) not in scope_nodes]
                 edits = sorted({pos(n) + (v + "_r",) for n in sites}, reverse=True)
                 per_kind["rename"].append(dict(base, kind="rename", what=v, edits=edits))
+            if "crename" in kinds:
+                # locals captured by closures: renamed in the function and in every nested scope, provided no nested scope
+                # binds the name itself (parameter, store, comprehension target)
+                rebound = set()
+                for x in nested:
+                    if isinstance(x, (ast.FunctionDef, ast.Lambda)):
+                        rebound |= {a.arg for a in x.args.posonlyargs + x.args.args + x.args.kwonlyargs}
+                    rebound |= {y.id for y in ast.walk(x) if isinstance(y, ast.Name) and isinstance(y.ctx, ast.Store)}
+                for v in [v for v in stored if v in inner_used and v not in rebound and v + "_r" not in all_names and not v.startswith("_")]:
+                    sites = [n for n in ast.walk(fn) if isinstance(n, ast.Name) and n.id == v]
+                    edits = sorted({pos(n) + (v + "_r",) for n in sites}, reverse=True)
+                    per_kind["crename"].append(dict(base, kind="crename", what=v, edits=edits))
         jit = _jitted(fn)
         for n in ast.walk(fn):
             if id(n) in inner_nodes:
